@@ -199,6 +199,8 @@ def one_pop(phi, xx, T, nu=1, gamma=0, h=0.5, theta0=1.0, initial_t=0,
         deme_ids (list[str]): sequence of strings representing the names of demes
     """
     phi = phi.copy()
+    # The compiled kernels read the grid through its data pointer.
+    xx = numpy.ascontiguousarray(xx, dtype=float)
 
     # For a one population integration, freezing means just not integrating.
     if frozen:
@@ -303,6 +305,8 @@ def two_pops(phi, xx, T, nu1=1, nu2=1, m12=0, m21=0, gamma1=0, gamma2=0,
         deme_ids (list[str]): sequence of strings representing the names of demes
     """
     phi = phi.copy()
+    # The compiled kernels read the grid through its data pointer.
+    xx = numpy.ascontiguousarray(xx, dtype=float)
 
     if T - initial_t == 0:
         return phi
@@ -447,6 +451,8 @@ def three_pops(phi, xx, T, nu1=1, nu2=1, nu3=1,
         deme_ids (list[str]): sequence of strings representing the names of demes
     """
     phi = phi.copy()
+    # The compiled kernels read the grid through its data pointer.
+    xx = numpy.ascontiguousarray(xx, dtype=float)
 
     if T - initial_t == 0:
         return phi
@@ -633,6 +639,8 @@ def four_pops(phi, xx, T, nu1=1, nu2=1, nu3=1, nu4=1,
         deme_ids (list[str]): sequence of strings representing the names of demes
     """
     phi = phi.copy()
+    # The compiled kernels read the grid through its data pointer.
+    xx = numpy.ascontiguousarray(xx, dtype=float)
 
     if T - initial_t == 0:
         return phi
@@ -832,6 +840,8 @@ def five_pops(phi, xx, T, nu1=1, nu2=1, nu3=1, nu4=1, nu5=1,
         deme_ids (list[str])): sequence of strings representing the names of demes
     """
     phi = phi.copy()
+    # The compiled kernels read the grid through its data pointer.
+    xx = numpy.ascontiguousarray(xx, dtype=float)
 
     if T - initial_t == 0:
         return phi
@@ -1283,6 +1293,8 @@ def one_pop_X(phi, xx, T, nu=1, gamma=0, h=0.5, beta=1, alpha=1, theta0=1.0,
                 integration at all.
     """
     phi = phi.copy()
+    # The compiled kernels read the grid through its data pointer.
+    xx = numpy.ascontiguousarray(xx, dtype=float)
 
     # For a one population integration, freezing means just not integrating.
     if frozen:
